@@ -441,6 +441,18 @@ func c19Stream(c *Ctx, f *ssa.Function) {
 		}
 	}
 	c.Check(okSrc, "B-PRE-C19", fn, "CryptBlocks input filled by io.ReadFull", "", "the bytes given to CryptBlocks come from a single Read (any length) instead of io.ReadFull into the same buffer", cb.Pos())
+	// a caller-supplied reader may return any number of bytes per Read: only a read that fills the whole buffer (or hits
+	// the end of the source) keeps the chunks on block boundaries. io.ReadAtLeast is that only with min == len(buf).
+	if rf != nil && calleeID(&rf.Call) == "io.ReadAtLeast" {
+		_, fromCaller := rf.Call.Args[0].(*ssa.Parameter)
+		if mi, isMI := rf.Call.Args[0].(*ssa.MakeInterface); isMI {
+			_, fromCaller = mi.X.(*ssa.Parameter)
+		}
+		full := isLenOf(rf.Call.Args[2], func(v ssa.Value) bool { return v == rf.Call.Args[1] })
+		if fromCaller {
+			c.Check(full, "B-PRE-C19", fn, "a caller-supplied source is read in whole buffers", "", "io.ReadAtLeast with a minimum below len(buf) may return a chunk that is not a multiple of the block size before the source ends: a valid stream delivered in odd-sized pieces is rejected (or, without the length test, split inside a block)", rf.Pos())
+		}
+	}
 	if nVal == nil {
 		return
 	}
